@@ -6,6 +6,7 @@ import (
 	"go/constant"
 	"go/token"
 	"go/types"
+	"math/big"
 	"regexp"
 	"sort"
 	"strings"
@@ -5258,19 +5259,21 @@ func ruleEmittedCasesDoNotFallThrough(c *core.Ctx) {
 			return st
 		}
 		walkStmts = func(list []ast.Stmt, st state) state {
-			var deferred []*ast.FuncLit
+			var deferred [][]ast.Stmt
 			for _, s := range list {
 				switch x := s.(type) {
 				case *ast.DeferStmt:
 					if fl, ok := x.Call.Fun.(*ast.FuncLit); ok {
-						deferred = append(deferred, fl)
+						deferred = append(deferred, fl.Body.List)
+					} else {
+						deferred = append(deferred, []ast.Stmt{&ast.ExprStmt{X: x.Call}}) // defer w.WriteStringln("break;")
 					}
 				case *ast.ReturnStmt:
 					for _, r := range x.Results {
 						st = walkExpr(r, st)
 					}
 					for i := len(deferred) - 1; i >= 0; i-- {
-						st = walkStmts(deferred[i].Body.List, st)
+						st = walkStmts(deferred[i], st)
 					}
 					return st
 				case *ast.IfStmt:
@@ -5342,7 +5345,7 @@ func ruleEmittedCasesDoNotFallThrough(c *core.Ctx) {
 				}
 			}
 			for i := len(deferred) - 1; i >= 0; i-- {
-				st = walkStmts(deferred[i].Body.List, st)
+				st = walkStmts(deferred[i], st)
 			}
 			return st
 		}
@@ -5684,7 +5687,7 @@ func ruleNoTestOfUnsetField(c *core.Ctx) {
 // absent): comparing two enums without a `base:` then reports a base type change between identical definitions.
 func ruleDefaultGoesToTestedVariable(c *core.Ctx) {
 	const rule = "DF1"
-	c.Rule(rule, "`if x == nil { y = D }` (one assignment to a variable of x's type, no else): y is x", 5)
+	c.Rule(rule, "`if x == nil { y = D }` (one assignment to a variable of x's type, no else): y is x", 3)
 	for _, d := range c.AllDecls() {
 		p := c.DeclPkg(d)
 		if p == nil || d.Body == nil || c.IsTestFile(d.Pos()) || !strings.HasPrefix(p.PkgPath, core.Mod) {
@@ -6745,87 +6748,548 @@ func ruleModelDirectoryReadRecursively(c *core.Ctx) {
 // batch reader of a changed step reads the old type into a temporary vector first, the temporary is declared empty
 // (`T tmp = {};`): without `tmp.reserve(values.capacity())` in front of the read the batch size is zero — the reader
 // returns "more data" with no items, forever.
+// The rule finds the helper that emits ReadBlocksIntoVector and the parameter that names the destination; at every call
+// (also through local closures, judged where the closure is called) whose destination is a name computed from the model
+// (a temporary — not the function's own `value`/`values`) and whose path conditions do not exclude a plural read, an
+// emission `<that name>.reserve(<...>.capacity())` precedes it, conditioned on nothing but plural / not-write.
 func ruleTemporaryBatchHasCapacity(c *core.Ctx) {
 	const rule = "B6"
-	c.Rule(rule, "cpp/binary.writeProtocolStep: every plural read (isPlural, !write) that goes into another vector than the method's own `values` is preceded, under the same conditions, by an emitted `<that vector>.reserve(<values>.capacity());`", 1)
+	c.Rule(rule, "cpp/binary: every plural read (ReadBlocksIntoVector through the step helper) into a temporary named after the model is preceded by an emitted `<temporary>.reserve(<values>.capacity());`", 1)
 	p := c.Pkg("internal/cpp/binary")
-	_, d, _ := c.Func("internal/cpp/binary", "writeProtocolStep")
-	if p == nil || d == nil {
-		c.Undecided(rule, "anchor/cpp/binary.writeProtocolStep", 0, "anchor not found")
+	if p == nil {
+		c.Undecided(rule, "anchor/internal/cpp/binary", 0, "package not loaded")
 		return
 	}
-	x := &gee.Extractor{Info: p.TypesInfo, Fset: c.Fset}
-	x.Decl = func(f *types.Func) *ast.FuncDecl {
-		if f.Pkg() != p.Types {
-			return nil
-		}
-		return c.Decl(f)
+	info := p.TypesInfo
+	// the helper and its destination / plural / write parameters
+	type helper struct {
+		f                  *types.Func
+		dest, plural, wrte int
 	}
-	rows := x.Extract(d.Name.Name, d)
-	// index of the destination parameter of the step reader/writer helper: the string parameter that receives the
-	// function's own target variable at some call
+	var helpers []helper
+	for _, d := range c.AllDecls() {
+		if c.DeclPkg(d) != p || d.Body == nil || d.Recv != nil {
+			continue
+		}
+		params := []types.Object{}
+		for _, fl := range d.Type.Params.List {
+			for _, nm := range fl.Names {
+				params = append(params, info.Defs[nm])
+			}
+		}
+		destIdx := -1
+		ast.Inspect(d.Body, func(n ast.Node) bool {
+			ce, ok := n.(*ast.CallExpr)
+			if !ok {
+				return true
+			}
+			t, ok := emissionTemplate(info, ce)
+			if !ok || !strings.Contains(t, "ReadBlocksIntoVector") {
+				return true
+			}
+			last := identObj(info, ce.Args[len(ce.Args)-1])
+			for i, po := range params {
+				if po == last && last != nil {
+					destIdx = i
+				}
+			}
+			return true
+		})
+		if destIdx < 0 {
+			continue
+		}
+		h := helper{f: info.Defs[d.Name].(*types.Func), dest: destIdx, plural: -1, wrte: -1}
+		for i, po := range params {
+			switch po.Name() {
+			case "isPlural":
+				h.plural = i
+			case "write":
+				h.wrte = i
+			}
+		}
+		helpers = append(helpers, h)
+	}
+	if len(helpers) == 0 {
+		c.Undecided(rule, "anchor/ReadBlocksIntoVector", 0, "no function of cpp/binary emits ReadBlocksIntoVector into a destination parameter")
+		return
+	}
 	n := 0
-	for i, r := range rows {
-		if r.Kind != "call" {
+	for _, d := range c.AllDecls() {
+		if c.DeclPkg(d) != p || d.Body == nil {
 			continue
 		}
-		tIdx := -1
-		for _, o := range rows {
-			if o.Kind == "call" && o.Tmpl == r.Tmpl {
-				for k, a := range o.Args {
-					if a == "target" {
-						tIdx = k
+		parents := map[ast.Node]ast.Node{}
+		var stack []ast.Node
+		ast.Inspect(d.Body, func(x ast.Node) bool {
+			if x == nil {
+				stack = stack[:len(stack)-1]
+				return true
+			}
+			if len(stack) > 0 {
+				parents[x] = stack[len(stack)-1]
+			}
+			stack = append(stack, x)
+			return true
+		})
+		// all definitions of a local
+		defsOf := func(obj types.Object) []ast.Expr {
+			var out []ast.Expr
+			ast.Inspect(d.Body, func(x ast.Node) bool {
+				if as, ok := x.(*ast.AssignStmt); ok && len(as.Lhs) == len(as.Rhs) {
+					for i, l := range as.Lhs {
+						if id, ok := l.(*ast.Ident); ok && info.ObjectOf(id) == obj {
+							out = append(out, as.Rhs[i])
+						}
+					}
+				}
+				return true
+			})
+			return out
+		}
+		isTemp := func(e ast.Expr) types.Object {
+			obj := identObj(info, e)
+			v, ok := obj.(*types.Var)
+			if !ok || v.IsField() {
+				return nil
+			}
+			defs := defsOf(v)
+			if len(defs) == 0 {
+				return nil // a parameter
+			}
+			for _, r := range defs {
+				if _, isCall := ast.Unparen(r).(*ast.CallExpr); !isCall {
+					return nil
+				}
+			}
+			return v
+		}
+		// conditions that hold at a node: enclosing ifs, and ifs earlier in an enclosing block whose branch leaves
+		type cond struct {
+			obj types.Object
+			val bool
+			e   ast.Expr // the condition itself, for conditions that are not a plain identifier
+		}
+		condOf := func(e ast.Expr, val bool) []cond {
+			e = ast.Unparen(e)
+			if u, ok := e.(*ast.UnaryExpr); ok && u.Op == token.NOT {
+				e, val = ast.Unparen(u.X), !val
+			}
+			if o := identObj(info, e); o != nil {
+				return []cond{{o, val, nil}}
+			}
+			return []cond{{nil, val, e}} // some other condition
+		}
+		var condsAt func(x ast.Node) []cond
+		condsAt = func(x ast.Node) []cond {
+			var out []cond
+			for cur := x; cur != nil; cur = parents[cur] {
+				par := parents[cur]
+				switch pp := par.(type) {
+				case *ast.IfStmt:
+					if cur == ast.Node(pp.Body) {
+						out = append(out, condOf(pp.Cond, true)...)
+					} else if cur == pp.Else {
+						out = append(out, condOf(pp.Cond, false)...)
+					}
+				case *ast.BlockStmt:
+					for _, s := range pp.List {
+						if s == cur {
+							break
+						}
+						if ifs, ok := s.(*ast.IfStmt); ok && ifs.Else == nil && goReturns(ifs.Body.List) {
+							out = append(out, condOf(ifs.Cond, false)...)
+						}
+					}
+				case *ast.CaseClause:
+					out = append(out, cond{nil, true, nil})
+				}
+			}
+			return out
+		}
+		// local closures and their call sites
+		lits := map[types.Object]*ast.FuncLit{}
+		ast.Inspect(d.Body, func(x ast.Node) bool {
+			if as, ok := x.(*ast.AssignStmt); ok && len(as.Lhs) == 1 && len(as.Rhs) == 1 {
+				if fl, ok := as.Rhs[0].(*ast.FuncLit); ok {
+					if o := identObj(info, as.Lhs[0]); o != nil {
+						lits[o] = fl
 					}
 				}
 			}
-		}
-		if tIdx < 0 || tIdx >= len(r.Args) || r.Args[tIdx] == "target" {
-			continue
-		}
-		// is this a read in the plural form?
-		sat, _ := guardSat(r.Guards, map[string]string{"isPlural": "true", "write": "false"})
-		if !sat {
-			continue
-		}
-		// the helper must be the one that reads/writes the step (it receives isPlural and write)
-		hasFlags := 0
-		for _, a := range r.Args {
-			if a == "isPlural" || a == "write" {
-				hasFlags++
+			return true
+		})
+		var effective func(x ast.Node, depth int) []ast.Node
+		effective = func(x ast.Node, depth int) []ast.Node {
+			// is x inside a literal bound to a local closure? then it runs where the closure is used
+			for cur := parents[x]; cur != nil; cur = parents[cur] {
+				fl, ok := cur.(*ast.FuncLit)
+				if !ok {
+					continue
+				}
+				for o, l := range lits {
+					if l != fl || depth > 3 {
+						continue
+					}
+					var sites []ast.Node
+					ast.Inspect(d.Body, func(y ast.Node) bool {
+						if id, ok := y.(*ast.Ident); ok && info.Uses[id] == o {
+							sites = append(sites, effective(id, depth+1)...)
+						}
+						return true
+					})
+					return sites
+				}
+				return []ast.Node{x} // a literal passed directly (w.Indented(func(){...})): runs in place
 			}
+			return []ast.Node{x}
 		}
-		if hasFlags < 2 {
-			continue
+		type reserve struct {
+			tmp types.Object
+			pos token.Pos
+			cs  []cond
 		}
-		n++
-		tmp := r.Args[tIdx]
-		key := fmt.Sprintf("plural read into %s#%d", tmp, n)
-		found := false
-		for _, e := range rows[:i] {
-			if e.Kind != "emit" || !strings.Contains(e.Tmpl, ".reserve(") || !strings.Contains(e.Tmpl, ".capacity()") || len(e.Args) < 2 || e.Args[0] != tmp {
-				continue
+		var reserves []reserve
+		ast.Inspect(d.Body, func(x ast.Node) bool {
+			ce, ok := x.(*ast.CallExpr)
+			if !ok {
+				return true
 			}
-			// emitted whenever the read is: its guards are among the read's guards
-			sub := true
-			for _, g := range e.Guards {
-				in := false
-				for _, h := range r.Guards {
-					if g == h {
-						in = true
+			if t, ok := emissionTemplate(info, ce); ok && strings.Contains(t, ".reserve(") && strings.Contains(t, ".capacity()") {
+				for _, a := range ce.Args {
+					if o := isTemp(a); o != nil {
+						reserves = append(reserves, reserve{o, ce.Pos(), condsAt(ce)})
+						break
 					}
 				}
-				if !in {
-					sub = false
+			}
+			return true
+		})
+		ast.Inspect(d.Body, func(x ast.Node) bool {
+			ce, ok := x.(*ast.CallExpr)
+			if !ok {
+				return true
+			}
+			f := core.Callee(info, ce)
+			var h *helper
+			for i := range helpers {
+				if f != nil && helpers[i].f == f {
+					h = &helpers[i]
 				}
 			}
-			if sub {
-				found = true
+			if h == nil || h.dest >= len(ce.Args) {
+				return true
 			}
-		}
-		c.Check(found, rule, key, r.Pos, "`"+tmp+".reserve(values.capacity())` is emitted in front of the read",
-			"the batch read of the old type goes into the temporary `"+tmp+"`, which is declared empty, and no `reserve(values.capacity())` is emitted for it: ReadBlocksIntoVector takes the capacity as the batch size and reads nothing")
+			tmp := isTemp(ce.Args[h.dest])
+			if tmp == nil {
+				return true
+			}
+			var pluralObj, writeObj types.Object
+			if h.plural >= 0 && h.plural < len(ce.Args) {
+				pluralObj = identObj(info, ce.Args[h.plural])
+			}
+			if h.wrte >= 0 && h.wrte < len(ce.Args) {
+				writeObj = identObj(info, ce.Args[h.wrte])
+			}
+			for _, site := range effective(ce, 0) {
+				cs := append(condsAt(site), condsAt(ce)...)
+				excluded := false
+				for _, k := range cs {
+					if k.obj != nil && (k.obj == writeObj && k.val || k.obj == pluralObj && !k.val) {
+						excluded = true
+					}
+				}
+				if excluded {
+					continue
+				}
+				n++
+				key := fmt.Sprintf("%s/read into %s#%d", c.FuncName(d), tmp.Name(), n)
+				ok := false
+				for _, r := range reserves {
+					if r.tmp != tmp || r.pos >= site.Pos() {
+						continue
+					}
+					// the reserve is emitted whenever the plural read is: each of its conditions is plural / not-write
+					// or a condition the read site is under as well
+					only := true
+					for _, k := range r.cs {
+						if k.obj != nil && (k.obj == pluralObj && k.val || k.obj == writeObj && !k.val) {
+							continue
+						}
+						shared := false
+						for _, q := range cs {
+							if q.val == k.val && (k.obj != nil && q.obj == k.obj || k.obj == nil && k.e != nil && q.e == k.e) {
+								shared = true
+							}
+						}
+						if !shared {
+							only = false
+						}
+					}
+					if only {
+						ok = true
+					}
+				}
+				c.Check(ok, rule, key, site.Pos(), "`"+tmp.Name()+".reserve(….capacity())` is emitted in front of the plural read",
+					"a batch of the old type can be read into the temporary `"+tmp.Name()+"`, which is declared empty, without `reserve(values.capacity())` emitted for it first: ReadBlocksIntoVector takes the capacity as the batch size and reads nothing")
+			}
+			return true
+		})
 	}
 	if n == 0 {
-		c.Undecided(rule, "anchor/plural read into a temporary", d.Pos(), "no plural read into a temporary found in writeProtocolStep")
+		c.Undecided(rule, "anchor/plural read into a temporary", 0, "no plural read into a temporary found in cpp/binary")
+	}
+}
+
+// X13 (C09): the range an enum value is checked against is the range of its base type. Wherever pkg/dsl compares a
+// big integer with a lower and an upper bound chosen by a primitive (`v.Cmp(min) < 0 || v.Cmp(max) > 0`), the statements
+// that choose the bounds — a switch, a lookup table — are evaluated for each of the nine integer primitives and the
+// values of the chosen bounds (read off the initialisers of the named *big.Int variables) are compared with arithmetic:
+// [-2^(w-1), 2^(w-1)-1] for intW, [0, 2^w-1] for uintW, size = uint64. A row that lets `-1` pass for uint32 accepts a
+// model whose generated C++ (`enum class E : uint32_t { kFailed = -1 }`) does not compile.
+func ruleIntegerBoundsMatchBaseType(c *core.Ctx) {
+	const rule = "X13"
+	c.Rule(rule, "pkg/dsl: the lower/upper bound a value is range-checked against, as chosen per integer primitive, equals the arithmetic range of that primitive (9 primitives)", 9)
+	p := c.Pkg("pkg/dsl")
+	if p == nil {
+		c.Undecided(rule, "anchor/pkg/dsl", 0, "package not loaded")
+		return
+	}
+	info := p.TypesInfo
+	type prim struct {
+		constName string
+		bits      int
+		signed    bool
+	}
+	prims := []prim{{"Int8", 8, true}, {"Uint8", 8, false}, {"Int16", 16, true}, {"Uint16", 16, false}, {"Int32", 32, true}, {"Uint32", 32, false}, {"Int64", 64, true}, {"Uint64", 64, false}, {"Size", 64, false}}
+	// value of a package-level *big.Int: big.NewInt(K) / new(big.Int).SetUint64(K) / SetInt64(K)
+	var bigValue func(name string, depth int) (*big.Int, bool)
+	bigValue = func(name string, depth int) (*big.Int, bool) {
+		o, _ := p.Types.Scope().Lookup(name).(*types.Var)
+		if o == nil || depth > 3 {
+			return nil, false
+		}
+		for _, f := range p.Syntax {
+			for _, dd := range f.Decls {
+				gd, ok := dd.(*ast.GenDecl)
+				if !ok || gd.Tok != token.VAR {
+					continue
+				}
+				for _, sp := range gd.Specs {
+					vs := sp.(*ast.ValueSpec)
+					for i, nm := range vs.Names {
+						if info.Defs[nm] != types.Object(o) || i >= len(vs.Values) {
+							continue
+						}
+						init := ast.Unparen(vs.Values[i])
+						if id, ok := init.(*ast.Ident); ok {
+							return bigValue(id.Name, depth+1) // MaxSize = MaxUint64
+						}
+						// exactly one call in the initialiser gives the value: big.NewInt(K), x.SetUint64(K), x.SetInt64(K)
+						var vals []*big.Int
+						ast.Inspect(init, func(m ast.Node) bool {
+							ce, ok := m.(*ast.CallExpr)
+							if !ok || len(ce.Args) != 1 {
+								return true
+							}
+							fn := types.ExprString(ce.Fun)
+							if fn != "big.NewInt" && !strings.HasSuffix(fn, ".SetUint64") && !strings.HasSuffix(fn, ".SetInt64") {
+								return true
+							}
+							if tv, ok := info.Types[ce.Args[0]]; ok && tv.Value != nil {
+								if v, ok := new(big.Int).SetString(tv.Value.ExactString(), 10); ok {
+									vals = append(vals, v)
+								}
+							}
+							return true
+						})
+						if len(vals) == 1 {
+							return vals[0], true
+						}
+						return nil, false
+					}
+				}
+			}
+		}
+		return nil, false
+	}
+	sites := 0
+	for _, d := range c.AllDecls() {
+		if c.DeclPkg(d) != p || d.Body == nil || c.IsTestFile(d.Pos()) {
+			continue
+		}
+		// range checks: X.Cmp(lo) < 0 || X.Cmp(hi) > 0 with lo, hi locals
+		var bodies []*ast.BlockStmt
+		bodies = append(bodies, d.Body)
+		ast.Inspect(d.Body, func(n ast.Node) bool {
+			if fl, ok := n.(*ast.FuncLit); ok {
+				bodies = append(bodies, fl.Body)
+			}
+			return true
+		})
+		for _, body := range bodies {
+			var lo, hi types.Object
+			var at token.Pos
+			var scan func(n ast.Node)
+			scan = func(n ast.Node) {
+				ast.Inspect(n, func(m ast.Node) bool {
+					if fl, ok := m.(*ast.FuncLit); ok && fl.Body != body {
+						return false
+					}
+					be, ok := m.(*ast.BinaryExpr)
+					if !ok || (be.Op != token.LOR && be.Op != token.LAND) {
+						return true
+					}
+					cmpArg := func(e ast.Expr, op token.Token) types.Object {
+						b, ok := ast.Unparen(e).(*ast.BinaryExpr)
+						if !ok || b.Op != op {
+							return nil
+						}
+						if lit, ok := ast.Unparen(b.Y).(*ast.BasicLit); !ok || lit.Value != "0" {
+							return nil
+						}
+						ce, ok := ast.Unparen(b.X).(*ast.CallExpr)
+						if !ok || len(ce.Args) != 1 {
+							return nil
+						}
+						if sel, ok := ce.Fun.(*ast.SelectorExpr); !ok || sel.Sel.Name != "Cmp" {
+							return nil
+						}
+						if v, ok := identObj(info, ce.Args[0]).(*types.Var); ok && v.Parent() != v.Pkg().Scope() {
+							return v
+						}
+						return nil
+					}
+					// out of range: v.Cmp(lo) < 0 || v.Cmp(hi) > 0; in range: v.Cmp(lo) >= 0 && v.Cmp(hi) <= 0 (either order)
+					lowOp, highOp := token.LSS, token.GTR
+					if be.Op == token.LAND {
+						lowOp, highOp = token.GEQ, token.LEQ
+					}
+					for _, pair := range [][2]ast.Expr{{be.X, be.Y}, {be.Y, be.X}} {
+						if l, h := cmpArg(pair[0], lowOp), cmpArg(pair[1], highOp); l != nil && h != nil {
+							lo, hi, at = l, h, be.Pos()
+						}
+					}
+					return true
+				})
+			}
+			scan(body)
+			if lo == nil {
+				continue
+			}
+			// slice: top-level statements of the body that define lo/hi or what they depend on; the primitive is injected
+			needed := map[types.Object]bool{lo: true, hi: true}
+			var inject types.Object
+			var slice []ast.Stmt
+			assigns := func(s ast.Stmt) map[types.Object]bool {
+				out := map[types.Object]bool{}
+				ast.Inspect(s, func(m ast.Node) bool {
+					switch x := m.(type) {
+					case *ast.FuncLit:
+						return false
+					case *ast.AssignStmt:
+						for _, l := range x.Lhs {
+							if o := identObj(info, l); o != nil {
+								out[o] = true
+							}
+						}
+					case *ast.ValueSpec:
+						for _, nm := range x.Names {
+							out[info.Defs[nm]] = true
+						}
+					}
+					return true
+				})
+				return out
+			}
+			for i := len(body.List) - 1; i >= 0; i-- {
+				s := body.List[i]
+				if s.Pos() > at {
+					continue
+				}
+				as := assigns(s)
+				hit := false
+				for o := range as {
+					if needed[o] && o != inject {
+						hit = true
+					}
+				}
+				if !hit {
+					continue
+				}
+				// does it define the injected primitive only?
+				slice = append([]ast.Stmt{s}, slice...)
+				ast.Inspect(s, func(m ast.Node) bool {
+					if id, ok := m.(*ast.Ident); ok {
+						if v, ok := info.Uses[id].(*types.Var); ok && v.Pkg() == p.Types && v.Parent() != p.Types.Scope() && !v.IsField() {
+							if nt := core.NamedOf(v.Type()); nt != nil && nt.Obj().Name() == "PrimitiveDefinition" {
+								if inject == nil {
+									inject = v
+								}
+							} else {
+								needed[v] = true
+							}
+						}
+					}
+					return true
+				})
+			}
+			if inject == nil || len(slice) == 0 {
+				continue
+			}
+			// drop statements that (only) define the injected variable
+			var run []ast.Stmt
+			for _, s := range slice {
+				as := assigns(s)
+				if as[inject] && !as[lo] && !as[hi] {
+					onlyInject := true
+					for o := range as {
+						if o != inject && needed[o] {
+							onlyInject = false
+						}
+					}
+					if onlyInject {
+						continue
+					}
+				}
+				run = append(run, s)
+			}
+			sites++
+			for _, pr := range prims {
+				key := fmt.Sprintf("%s/%s", c.FuncName(d), pr.constName)
+				co, _ := p.Types.Scope().Lookup(pr.constName).(*types.Const)
+				if co == nil {
+					c.Undecided(rule, key, at, "primitive constant not found")
+					continue
+				}
+				pi := &pinterp{c: c}
+				env := &penv{vars: map[types.Object]pval{inject: {k: pvString, s: constant.StringVal(co.Val())}}}
+				pi.exec(info, run, env)
+				lv, lok := env.get(lo)
+				hv, hok := env.get(hi)
+				if pi.unknown != "" || !lok || !hok || lv.k != pvAbs || hv.k != pvAbs || !strings.HasPrefix(lv.s, "bigint:") || !strings.HasPrefix(hv.s, "bigint:") {
+					c.Undecided(rule, key, at, "the bounds chosen for "+pr.constName+" could not be evaluated ("+pi.unknown+")")
+					continue
+				}
+				lname, hname := strings.TrimPrefix(lv.s, "bigint:"), strings.TrimPrefix(hv.s, "bigint:")
+				lb, ok1 := bigValue(lname, 0)
+				hb, ok2 := bigValue(hname, 0)
+				if !ok1 || !ok2 {
+					c.Undecided(rule, key, at, "the value of "+lname+" / "+hname+" could not be read off its initialiser")
+					continue
+				}
+				wantLo, wantHi := new(big.Int), new(big.Int)
+				if pr.signed {
+					wantLo.Neg(new(big.Int).Lsh(big.NewInt(1), uint(pr.bits-1)))
+					wantHi.Sub(new(big.Int).Lsh(big.NewInt(1), uint(pr.bits-1)), big.NewInt(1))
+				} else {
+					wantHi.Sub(new(big.Int).Lsh(big.NewInt(1), uint(pr.bits)), big.NewInt(1))
+				}
+				c.Check(lb.Cmp(wantLo) == 0 && hb.Cmp(wantHi) == 0, rule, key, at, fmt.Sprintf("[%s, %s] = [%s, %s]", lname, hname, lb, hb),
+					fmt.Sprintf("for %s the value is checked against [%s, %s] = [%s, %s], the type holds [%s, %s]: values outside the base type are accepted (or values inside it rejected)", pr.constName, lname, hname, lb, hb, wantLo, wantHi))
+			}
+		}
+	}
+	if sites == 0 {
+		c.Undecided(rule, "anchor/range check", 0, "no `v.Cmp(lo) < 0 || v.Cmp(hi) > 0` range check chosen by a primitive was found in pkg/dsl")
 	}
 }
